@@ -113,6 +113,9 @@ func c13(c *q.Ctx) {
 	}
 	poolMapOwner(c)
 	poolReadmission(c)
+	poolRollback(c)
+	// a block whose transactions delete and re-create a key replays on a node that never saw them
+	commitVersionChecks(c)
 }
 
 // poolReadmission (C13, C03): after a walk the rolled-back pool transactions are re-admitted - except those the new
